@@ -91,10 +91,16 @@ type ClientView struct {
 	Broken  string
 }
 
-func itemsOf(st StreamM) []ClientItem {
+func itemsOf(st StreamM, tokenIsData ...bool) []ClientItem {
 	var out []ClientItem
 	for _, b := range st.Batches {
-		switch b.Kind() {
+		kind := b.Kind()
+		if kind == "token" && len(tokenIsData) > 0 && tokenIsData[0] {
+			// an exchange turn's data batch carries the cursor; with zero rows
+			// it looks like a bare token batch
+			kind = "data"
+		}
+		switch kind {
 		case "log":
 			lvl, _ := b.Get(KLogLevel)
 			msg, _ := b.Get(KLogMessage)
@@ -158,6 +164,7 @@ func PipeView(streams []StreamM, hasHeaderStream bool) ClientView {
 // (cancelAfterTurn+1)-th request if the stream is still open then.
 func RunHTTPStream(route func(i int) http.Handler, c CallSpec, hdr map[string]string, maxRequests int) ClientView {
 	v := ClientView{}
+	exchange := c.ConcreteKind() == "exchange"
 	t := HTTPInit(route(0), "", c, hdr)
 	v.Turns = 1
 	absorb := func(t HTTPTurn, first bool) bool {
@@ -179,7 +186,7 @@ func RunHTTPStream(route func(i int) http.Handler, c CallSpec, hdr map[string]st
 			}
 		}
 		for _, st := range streams {
-			v.Items = append(v.Items, itemsOf(st)...)
+			v.Items = append(v.Items, itemsOf(st, exchange && !first)...)
 		}
 		return true
 	}
@@ -187,7 +194,6 @@ func RunHTTPStream(route func(i int) http.Handler, c CallSpec, hdr map[string]st
 		return v
 	}
 	cursor, callTok := t.Cursor, t.CallToken
-	exchange := c.ConcreteKind() == "exchange"
 	idx := 0
 	for cursor != "" && v.Turns < maxRequests {
 		var in arrow.RecordBatch
